@@ -6,7 +6,7 @@ Arguments N.ltb : simpl never.
 Arguments N.leb : simpl never.
 Arguments N.eqb : simpl never.
 
-(* ---------- str1 ---------- *)
+(* ---------- skip_str: unfolding, split ---------- *)
 Lemma skip_str_cons c s1 : skip_str (c :: s1) =
     if beqb c x22 then Some ([c], s1)
     else if beqb c x5c then
@@ -44,7 +44,7 @@ Proof.
   end; reflexivity.
 Qed.
 
-(* ---------- str2 ---------- *)
+(* ---------- scan_str vs skip_str, extension, escape_body round trip ---------- *)
 Lemma scan_str_cons c s1 : scan_str (c :: s1) =
     if beqb c x22 then Some ([], s1)
     else if beqb c x5c then
@@ -152,7 +152,7 @@ Proof.
   cbn [escape_body]. rewrite <- !app_assoc, skip_str_escape_byte, IH. reflexivity.
 Qed.
 
-(* ---------- str3 ---------- *)
+(* ---------- escape_body preserves UTF-8 ---------- *)
 Lemma escape_byte_ascii c : ascii c = true -> forallb ascii (escape_byte c) = true.
 Proof. intro H; destruct c; try reflexivity; vm_compute in H; discriminate H. Qed.
 
@@ -214,7 +214,7 @@ Proof.
   apply utf8_valid_app; [apply escape_body_utf8, H | reflexivity].
 Qed.
 
-(* ---------- num1 ---------- *)
+(* ---------- numbers: scan_int, scan_frac ---------- *)
 Definition is_dot (c : byte) : bool := beqb c x2e.
 Definition is_e (c : byte) : bool := beqb c x65 || beqb c x45.
 Definition is_sign (c : byte) : bool := beqb c x2b || beqb c x2d.
@@ -300,7 +300,7 @@ Proof.
       cbn. unfold is_dot. rewrite E. reflexivity.
 Qed.
 
-(* ---------- num2 ---------- *)
+(* ---------- numbers: scan_exp, scan_number inversion ---------- *)
 Lemma scan_exp_inv s a r : scan_exp s = Some (a, r) ->
   s = a ++ r /\ estop a r = true /\ forallb ascii a = true /\
   (a = [] \/ exists c a', a = c :: a' /\ is_e c = true) /\
@@ -433,7 +433,7 @@ Proof.
       cbn [app] in Ri. rewrite <- !app_assoc. cbn [app]. rewrite Ri, Rf, Re. reflexivity.
 Qed.
 
-(* ---------- num3 ---------- *)
+(* ---------- numbers: corollaries, print_N ---------- *)
 Lemma scan_number_split s l r : scan_number s = Some (l, r) -> s = numlex_bytes l ++ r.
 Proof. intro H. apply scan_number_inv in H. tauto. Qed.
 
